@@ -59,6 +59,17 @@ def judge_files(directory, compress):
                 seen[r.id] = rel
                 if r.get(b'WARC-Block-Digest') is not None and r.get(b'WARC-Block-Digest') != b'sha1:' + wc.b32sha1(r.block):
                     fails.append(('block-digest', 'compute_checksum', '%s: %s record' % (rel, r.type)))
+                pd = r.get(b'WARC-Payload-Digest')
+                if pd is not None and r.type in (b'request', b'response'):
+                    # the payload is what follows the first empty line of the block (recomputed from the block alone)
+                    import re as _re
+                    m = _re.search(rb'\n\r?\n', r.block)
+                    end = m.end() if m else len(r.block)
+                    if pd != b'sha1:' + wc.b32sha1(r.block[end:]):
+                        fails.append(('payload-digest', 'end_request' if r.type == b'request' else 'end_response',
+                                      '%s: %s record for %r: WARC-Payload-Digest is not the SHA-1 of the %d bytes after the first empty '
+                                      'line of the block (header block %d bytes: %r)'
+                                      % (rel, r.type.decode(), r.get(b'WARC-Target-URI'), len(r.block) - end, end, r.block[:end][-60:])))
     return fails
 
 
@@ -239,7 +250,9 @@ ROBOTS_BODY = b'User-agent: *\nDisallow: /private\n'
 def gen_processor(rng):
     return {'compress': rng.random() < 0.4, 'max_size': rng.choice([0, 200, 300, 300, 1200, None]), 'log': rng.random() < 0.3,
             'urls': rng.choice([2, 3, 4]), 'fault_nth': rng.choice([0, 0, 0, 1, None]), 'prefix': rng.choice(['half', 'zero', 'open']),
-            'rawwrite': rng.choice([1, 1, 2]), 'same_host': rng.random() < 0.3}
+            'rawwrite': rng.choice([1, 1, 2]), 'same_host': rng.random() < 0.3,
+            # Basic credentials in the URL (user:password@host): the WebClient adds an Authorization field
+            'userinfo': rng.choice([None, None, 'user:pass', 'u:' + 'p' * 60, 'me%40site:s3cr%3At'])}
 
 
 def run_processor(case):
@@ -305,7 +318,8 @@ def run_processor(case):
             processor = WebProcessor(web_client, WebProcessorFetchParams())
             for i in range(case['urls']):
                 host = 'h0' if case['same_host'] else 'h%d' % i
-                url = 'http://%s:%d/page%d' % (host, 8000 + (0 if case['same_host'] else i), i)
+                url = 'http://%s%s:%d/page%d' % (case['userinfo'] + '@' if case.get('userinfo') else '', host,
+                                                   8000 + (0 if case['same_host'] else i), i)
                 try:
                     await compat._ensure(processor.process(new_item_session(url, factory)))
                     state['done'] += 1
@@ -345,7 +359,8 @@ def check_processor(ctx, case):
         if work:
             shutil.rmtree(work, ignore_errors=True)
     ctx.case(('processor', repr(case)), tags=['processor:%s:%s' % ('fault-fired' if state['fired'] else 'no-fault',
-                                                                   'crawl-ended' if state['fatal'] else 'crawl-went-on')])
+                                                                   'crawl-ended' if state['fatal'] else 'crawl-went-on')] +
+             (['processor:basic-credentials'] if case.get('userinfo') else []))
     for kind, where, detail in fails:
         ctx.fail(kind, where, {'stream': 'processor', 'processor': case},
                  detail + ' [real WebProcessor + robots.txt fetch; roll-over fault fired=%s; crawl %s]'
